@@ -8,6 +8,13 @@ from concurrent.futures import ThreadPoolExecutor
 from lib.common import ToolError, write_ndjson, read_ndjson, log
 
 ICE_PAT = re.compile(r"internal compiler error", re.I)
+SRC_QUOTE = re.compile(r"^\s*\d+\s*\|")     # a quoted source line of a diagnostic: `12 | let x = ...`
+
+
+def _messages(text):
+    """The diagnostics text without the quoted source lines (a comment or string in the program under test may
+    contain any text, e.g. 'internal compiler error')."""
+    return "\n".join(l for l in text.split("\n") if not SRC_QUOTE.match(l))
 
 
 def classify(built, crashed=None):
@@ -21,7 +28,7 @@ def classify(built, crashed=None):
         return "panic"
     if built.get("unsupported"):
         return "unsupported"
-    diag = built.get("diag") or ""
+    diag = _messages(built.get("diag") or "")
     err = built.get("err") or ""
     if ICE_PAT.search(diag) or ICE_PAT.search(err):
         return "ice"
@@ -41,7 +48,7 @@ def detail(built, crashed=None):
         return "no Built event"
     if built.get("panic"):
         return built["panic"][:500]
-    d = (built.get("diag") or "") + "\n" + (built.get("err") or "")
+    d = _messages(built.get("diag") or "") + "\n" + (built.get("err") or "")
     m = re.search(r"internal compiler error[^\n]*", d, re.I)
     if m:
         return m.group(0)[:500]
